@@ -417,7 +417,7 @@ package contractcourt
 //@ func (b *boltArbitratorLog) checkpointContract
 //@   props C13
 //@   site call Update: assert arg(0) == b.db
-//@   site return: assert result == ret(Update)
+//@   ensures result == nil ==> called(Update) && ret(Update) == nil
 //@
 //@ func (b *boltArbitratorLog) checkpointContract$1
 //@   props C13
@@ -432,7 +432,7 @@ package contractcourt
 //@ func (b *boltArbitratorLog) InsertConfirmedCommitSet
 //@   props C13
 //@   site call Batch: assert arg(0) == b.db
-//@   site return: assert result == ret(Batch)
+//@   ensures result == nil ==> called(Batch) && ret(Batch) == nil
 //@
 //@ func (b *boltArbitratorLog) InsertConfirmedCommitSet$1
 //@   props C13
